@@ -26,7 +26,13 @@ type scase struct {
 	Scenario string `json:"scenario"`
 	M        int    `json:"max_static_set_members"`
 	N        int    `json:"members"`
+	Period   int    `json:"member_period,omitempty"` // > 0: member i is member(i % Period): repeated members
 }
+
+// staticPeriod > 0 makes runStatic build the member list from member(i % staticPeriod): the same member
+// (and, at period == run length, the same run of members, hence the same subset blob) occurs several
+// times. cmd/pk makestatic builds static sets from camliMember values, which may repeat.
+var staticPeriod int
 
 var memberBlobs []*schema.Blob
 
@@ -123,7 +129,11 @@ func runStatic(m, n int) (fail *failure, shape string) {
 	var refs []blob.Ref
 	var want []string
 	for i := 0; i < n; i++ {
-		mb := member(i)
+		mi := i
+		if staticPeriod > 0 {
+			mi = i % staticPeriod
+		}
+		mb := member(mi)
 		sto.PutRaw(mb.BlobRef(), []byte(mb.JSON()))
 		refs = append(refs, mb.BlobRef())
 		want = append(want, mb.BlobRef().String())
@@ -180,6 +190,11 @@ func runStatic(m, n int) (fail *failure, shape string) {
 	}
 	if d := sameMembers(gs, want); d != "" {
 		return &failure{"DirReader.Readdir", "wrong-members", d}, shape
+	}
+	if staticPeriod > 0 {
+		// repeated members: only the schema-level readers are compared (whether the index keeps
+		// duplicates of a directory entry is not part of the property)
+		return nil, shape
 	}
 	// server side: the indexer lists the directory through the same reader
 	ix := index.NewMemoryIndex()
@@ -260,7 +275,52 @@ func runStaticScenario(res *vk.Result, dl time.Time) {
 				res.EngineError("staticset m=%d n=%d failed once (%s) but not reproducibly", m, n, fail.Class)
 				continue
 			}
-			res.Violate(sc, fail.sig("staticset"), fmt.Sprintf("m=%d members=%d: %s", m, n, fail.What), scase{"staticset", m, n})
+			res.Violate(sc, fail.sig("staticset"), fmt.Sprintf("m=%d members=%d: %s", m, n, fail.What), scase{"staticset", m, n, 0})
+		}
+	}
+}
+
+// runStaticRepeated: member lists with repeated members, every period 1..m x every member count.
+func runStaticRepeated(res *vk.Result, dl time.Time) {
+	sc := res.Scenario("staticset-repeated-members")
+	ms := []int{3, 4}
+	if vk.Thorough() {
+		ms = []int{3, 4, 5, 6}
+	}
+	sc.Bound = fmt.Sprintf("maxStaticSetMembers m in %v x member period 1..m (member i = member(i mod period): equal runs give equal subset blobs) x every member count 0..m^3+2; listing via DirReader.StaticSet, Readdir(-1) and an independent walk of the static-set JSON", ms)
+	defer func() { staticPeriod = 0 }()
+	k := 0
+	for _, m := range ms {
+		for period := 1; period <= m; period++ {
+			for n := 0; n <= staticCounts(m); n++ {
+				k++
+				if !vk.Mine(k) {
+					continue
+				}
+				if time.Now().After(dl) {
+					sc.Exhaustive = false
+					sc.Note = fmt.Sprintf("deadline reached at m=%d period=%d n=%d", m, period, n)
+					return
+				}
+				staticPeriod = period
+				fail, shape := runStatic(m, n)
+				sc.Executions++
+				sc.States++
+				sc.Transitions += 3
+				if fail == nil {
+					sc.Nontrivial++
+					sc.Outcome(fmt.Sprintf("m=%d p=%d %s", m, period, shape))
+					if n == m*m+1 && period == m {
+						sc.Sample(map[string]any{"m": m, "members": n, "period": period, "static_set_shape": shape})
+					}
+					continue
+				}
+				if !confirm(5, fail, func() *failure { f, _ := runStatic(m, n); return f }) {
+					res.EngineError("staticset-repeated m=%d period=%d n=%d failed once (%s) but not reproducibly", m, period, n, fail.Class)
+					continue
+				}
+				res.Violate(sc, fail.sig("staticset-repeated"), fmt.Sprintf("m=%d members=%d period=%d: %s", m, n, period, fail.What), scase{"staticset", m, n, period})
+			}
 		}
 	}
 }
@@ -268,6 +328,10 @@ func runStaticScenario(res *vk.Result, dl time.Time) {
 func replayStatic(res *vk.Result, r map[string]any) {
 	m, _ := r["max_static_set_members"].(float64)
 	n, _ := r["members"].(float64)
+	if pd, _ := r["member_period"].(float64); pd > 0 {
+		staticPeriod = int(pd)
+		defer func() { staticPeriod = 0 }()
+	}
 	if m < 2 || (m == 2 && n > 3) {
 		res.EngineError("replay: m=%v n=%v outside the valid domain", m, n)
 		return
